@@ -146,15 +146,95 @@ Definition tree_case (c : cstr * node v * fin) : bool :=
 # ------------------------------------------------------------------------------------------------
 # Coq terms
 # ------------------------------------------------------------------------------------------------
+class Pool(object):
+    """texts and class-name lists that occur several times are defined once in the header of the case files"""
+    def __init__(self):
+        self.count = {}
+        self.names = {}
+        self.on = False
+
+    def see(self, key):
+        self.count[key] = self.count.get(key, 0) + 1
+
+    def header(self):
+        lines = []
+        for key, n in sorted(self.count.items(), key=lambda kv: repr(kv[0])):
+            if n >= 3 or (key[0] == 'm'):
+                name = 'pool_%d' % len(self.names)
+                self.names[key] = name
+                if key[0] == 't':
+                    lines.append('Definition %s : cstr := %s.' % (name, raw_text(key[1])))
+                else:
+                    lines.append('Definition %s : list string := %s.' % (name, raw_names(key[1])))
+        return '\n'.join(lines) + '\n'
+
+
+POOL = Pool()
+
+
+def raw_text(s):
+    if not s:
+        return '(@nil Z)'
+    if all(32 <= ord(c) < 127 and c != '"' for c in s):
+        return '(s2z "%s")' % s
+    return '[' + '; '.join('%d' % ord(c) for c in s) + ']%Z'
+
+
 def ctext(s):
-    return '(@nil Z)' if not s else '[' + '; '.join('%d' % ord(c) for c in s) + ']%Z'
+    """text -> Coq term of type cstr.  Two-pass: with POOL.on False occurrences are counted and a placeholder is
+    emitted; finish() substitutes pooled names."""
+    if not s:
+        return '(@nil Z)'
+    POOL.see(('t', s))
+    return '\x01T%d\x02' % _intern(('t', s))
 
 
-def cnames(names):
+_INTERN = {}
+_INTERN_REV = []
+
+
+def _intern(key):
+    k = _INTERN.get(key)
+    if k is None:
+        k = len(_INTERN_REV)
+        _INTERN[key] = k
+        _INTERN_REV.append(key)
+    return k
+
+
+def raw_names(names):
     for n in names:
         if not re.match(r'^[A-Za-z_][A-Za-z0-9_]*$', n):
             raise ValueError('class name %r' % n)
     return '[' + '; '.join('"%s"' % n for n in names) + ']'
+
+
+def finish(terms):
+    """resolve placeholders; returns (extra header, terms)"""
+    hdr = POOL.header()
+
+    def sub(m):
+        key = _INTERN_REV[int(m.group(1))]
+        name = POOL.names.get(key)
+        if name:
+            return name
+        return raw_text(key[1]) if key[0] == 't' else raw_names(key[1])
+    out = [re.sub('\x01[TM](\\d+)\x02', sub, t) for t in terms]
+    return hdr, out
+
+
+def pool_reset():
+    POOL.count.clear()
+    POOL.names.clear()
+    _INTERN.clear()
+    del _INTERN_REV[:]
+
+
+def cnames(names):
+    names = tuple(names)
+    raw_names(names)
+    POOL.see(('m', names))
+    return '\x01M%d\x02' % _intern(('m', names))
 
 
 def mro_names(e):
@@ -420,9 +500,13 @@ def gen_listy(rng):
     return s
 
 
-def deep_strings(tier):
+def deep_strings(tier, max_n=None):
     out = []
     sizes = [3, 40, 150, 600, 2500] + ([10000] if tier == 'thorough' else [])
+    if max_n:
+        # single-box unordered lists cost O(n^2) subgrader checks + O(n^3) assignment in the number of items n (0.7 s at n = 160,
+        # terminating but far beyond the alarm at n = 2500): sizes are capped there so that the alarm never fires on a slow machine
+        sizes = [n for n in sizes if n <= max_n] + [max_n]
     for n in sizes:
         out += ['(' * n + '1' + ')' * n, '[' * n + '1' + ']' * n, 'sin(' * n + '1' + ')' * n, '(' * n, ')' * n, '[(' * n + '])' * n,
                 '-' * n + '1', '1' + '^2' * n, '1' + '^-2' * n, '+'.join(['1'] * n), '1' + '||1' * n, '1' + '/(1' * n + ')' * n,
@@ -537,8 +621,7 @@ class Recorder(object):
         self.ex.MathExpression.eval = self.orig_eval
 
 
-def observe(g, inp, attempt=None, seed=0):
-    """call g(None, inp) with check wrapped on the instance; returns a record"""
+def observe_once(g, inp, attempt, seed, seconds):
     import numpy as np
     raw = {'called': 0}
     orig = g.check
@@ -558,11 +641,23 @@ def observe(g, inp, attempt=None, seed=0):
     t0 = time.time()
     try:
         kw = {} if attempt is None else {'attempt': attempt}
-        status, val = core.guarded(g, None, inp, **kw)
+        status, val = core.guarded(g, None, inp, seconds=seconds, **kw)
     finally:
         del g.check
+    # the library's `except Exception` also catches the harness alarm: recognise it
+    if isinstance(raw.get('exc'), core.CallTimeout) or isinstance(val, core.CallTimeout):
+        status = 'timeout'
     return {'status': status, 'val': val, 'called': raw['called'], 'raw_status': raw.get('status'), 'raw_exc': raw.get('exc'),
             'seconds': time.time() - t0}
+
+
+def observe(g, inp, attempt=None, seed=0):
+    """call g(None, inp) with check wrapped on the instance; returns a record.  A call stopped by the 10 s alarm is repeated
+    once with a 40 s alarm (a loaded machine must not be mistaken for non-termination)."""
+    rec = observe_once(g, inp, attempt, seed, 10)
+    if rec['status'] == 'timeout':
+        rec = observe_once(g, inp, attempt, seed, 40)
+    return rec
 
 
 def judge(mode, credit, attempt, inp, rec):
@@ -570,7 +665,7 @@ def judge(mode, credit, attempt, inp, rec):
     from mitxgraders.exceptions import MITxError, StudentFacingError, ConfigError
     st, val = rec['status'], rec['val']
     if st == 'timeout':
-        return 'the call did not terminate within 10 s'
+        return 'the call did not terminate within 10 s, nor within 40 s when repeated'
     if st == 'exc' and not isinstance(val, (StudentFacingError, ConfigError)):
         return 'an exception outside the library family escaped: %s: %s' % (type(val).__name__, str(val)[:200])
     if not shape_ok_py(mode, inp):
@@ -721,6 +816,21 @@ def check_anticipated(row):
     return None
 
 
+
+def coq_eval(res, tag, fn, terms, metas, case_type, kind, nshards):
+    """evaluate `fn case = true` for all case terms inside Coq (model interpreters on the regenerated tables)"""
+    hdr, terms = finish(terms)
+    shard = max(40, (len(terms) + nshards - 1) // nshards)
+    n, failing, errors = core.eval_agreement(tag, HEADER + AGREE_DEFS + hdr, fn, terms, shard=shard, case_type=case_type)
+    res.programs += n
+    res.corr_errors += errors
+    for i in failing[:12]:
+        res.disagreements.append(dict(metas[i], kind=kind))
+    if len(failing) > 12:
+        res.disagreements.append({'kind': kind, 'more': len(failing) - 12})
+    pool_reset()
+
+
 # ------------------------------------------------------------------------------------------------
 # streams
 # ------------------------------------------------------------------------------------------------
@@ -767,9 +877,9 @@ def add_call_case(terms, metas, mode, debug, credit, attempt, inp, spec, rec, na
 
 
 def run_calls(ctx, res, rng):
-    n_random = 2500 if ctx['tier'] == 'quick' else 30000
-    if ctx['escalate'] and ctx['tier'] == 'quick':
-        n_random = 5000
+    quick = ctx['tier'] == 'quick'
+    n_random = (4000 if ctx['escalate'] else 2000) if quick else 30000
+    per_signature = (6 if ctx['escalate'] else 3) if quick else 40
     Z = zoo()
     graders = {}
     for name, mode, factory, credit in Z:
@@ -780,16 +890,17 @@ def run_calls(ctx, res, rng):
                                   'what': 'zoo grader could not be constructed: %r' % (g,)})
             continue
         graders[name] = (mode, g, gd, credit)
-    terms, metas = [], []
     kinds = {}
     finals = {}
     slow = 0.0
     work = []          # (name, spec, attempt)
-    # 1. corpus x every grader, deep strings x a few graders, non-text objects x every grader
-    for name, (mode, g, gd, credit) in graders.items():
-        for s in CORPUS[:60] if ctx['tier'] == 'quick' else CORPUS:
+    labels = [l for l, _ in nontext_objects()]
+    # 1. corpus x every grader, non-text objects x every grader, deep strings x a few graders
+    for gi, (name, (mode, g, gd, credit)) in enumerate(sorted(graders.items())):
+        for s in (CORPUS[:45] if quick else CORPUS):
             work.append((name, s if mode != LIST else ['list', [s] * LIST_SIZES.get(name, 2)], 1 if credit else None))
-        for label, _ in nontext_objects():
+        mine = labels if (not quick or name in ('String', 'List/str', 'Echo')) else [labels[(gi * 5 + k) % len(labels)] for k in range(6)]
+        for label in mine:
             work.append((name, ['obj', label], None))
             work.append((name, ['list', ['a', ['obj', label]]], None))
         work.append((name, ['list', []], None))
@@ -801,7 +912,7 @@ def run_calls(ctx, res, rng):
     deep = deep_strings(ctx['tier'])
     for name in ('Formula', 'Matrix/vars', 'SingleList/nested', 'Interval', 'String', 'Sum'):
         if name in graders:
-            for s in deep:
+            for s in (deep_strings(ctx['tier'], max_n=100) if name.startswith('SingleList') else deep):
                 work.append((name, s, None))
     for name in ('List/formula-ordered', 'Echo'):
         if name in graders:
@@ -815,6 +926,8 @@ def run_calls(ctx, res, rng):
         attempt = rng.choice([None, 1, 2, 5]) if credit else None
         work.append((name, spec, attempt))
     from mitxgraders.exceptions import StudentFacingError
+    chosen = {}        # signature -> number of correspondence cases taken
+    picked = []        # (mode, debug, credit, attempt, inp, spec, rec, name)
     with Recorder() as recorder:
         for i, (name, spec, attempt) in enumerate(work):
             mode, g, gd, credit = graders[name]
@@ -826,12 +939,6 @@ def run_calls(ctx, res, rng):
             if what:
                 res.witnesses.append({'key': 'call:%s:%r' % (name, spec if len(repr(spec)) < 300 else hash(repr(spec))), 'kind': 'call',
                                       'grader': name, 'input': spec, 'attempt': attempt, 'what': what})
-            size = len(repr(spec))
-            if size < 900:
-                add_call_case(terms, metas, mode, False, credit, attempt, inp, spec, rec, name)
-                if i % 5 == 0:      # the debug branch of the handler (raw re-raise), correspondence only
-                    recd = observe(gd, build_object(spec), attempt=attempt, seed=ctx['seed'] * 7919 + i)
-                    add_call_case(terms, metas, mode, True, credit, attempt, inp, spec, recd, name)
             k = ('refused' if rec['called'] == 0 else 'returned' if rec['status'] == 'ret' else
                  'generic' if type(rec['val']) is StudentFacingError and not isinstance(rec['raw_exc'], StudentFacingError) else 'anticipated')
             kinds[k] = kinds.get(k, 0) + 1
@@ -842,24 +949,35 @@ def run_calls(ctx, res, rng):
                 res.nontrivial.add((name, repr(spec)[:200]))
             elif rec['called'] == 0:
                 res.nontrivial.add((name, 'refused', repr(spec)[:200]))
+            # correspondence: a bounded number of cases per (grader, kind of input, raw class, final class)
+            size = len(repr(spec))
+            if size < (700 if quick else 3000) and rec['status'] != 'timeout':
+                sig = (name, spec[0] if isinstance(spec, list) else 'text', spec[1] if isinstance(spec, list) and spec[0] == 'obj' else None,
+                       type(rec['raw_exc']).__name__ if rec['raw_status'] == 'exc' else rec['raw_status'],
+                       type(rec['val']).__name__ if rec['status'] == 'exc' else 'ret', '\n' in str(rec['val']) if rec['status'] == 'exc' else None)
+                if chosen.get(sig, 0) < per_signature or what:
+                    chosen[sig] = chosen.get(sig, 0) + 1
+                    picked.append((mode, False, credit, attempt, inp, spec, rec, name))
+                    if chosen[sig] == 1 and k != 'refused':      # the debug branch of the handler (raw re-raise), correspondence only
+                        recd = observe(gd, build_object(spec), attempt=attempt, seed=ctx['seed'] * 7919 + i)
+                        picked.append((mode, True, credit, attempt, inp, spec, recd, name))
     res.distribution['calls'] = len(work)
     res.distribution['call_outcomes'] = kinds
     res.distribution['escaping_classes'] = finals
     res.distribution['slowest_call_s'] = round(slow, 3)
     res.distribution['grader_configurations'] = len(graders)
+    res.distribution['call_correspondence_signatures'] = len(chosen)
+    pool_reset()
+    terms, metas = [], []
+    for args in picked:
+        add_call_case(terms, metas, *args)
     res.samples.append({'call': metas[len(metas) // 2] if metas else None})
-    n, failing, errors = core.eval_agreement('c02_call', HEADER + AGREE_DEFS, 'call_case', terms, shard=max(200, len(terms) // 12 + 1),
-                                             case_type='nat * bool * bool * option Z * pyval * raw * fin')
-    res.programs += n
-    res.corr_errors += errors
-    for i in failing[:20]:
-        res.disagreements.append(dict(metas[i], kind='call'))
-    if len(failing) > 20:
-        res.disagreements.append({'kind': 'call', 'more': len(failing) - 20})
+    coq_eval(res, 'c02_call', 'call_case', terms, metas, 'nat * bool * bool * option Z * pyval * raw * fin', 'call', 12)
     return recorder.sites
 
 
 def run_sites(ctx, res, sites):
+    pool_reset()
     terms, metas = [], []
     for (site, name, rmro, rmsg, fmro, fmsg), count in sorted(sites.items()):
         if not all(ord(c) < 0x110000 for c in name):
@@ -870,12 +988,7 @@ def run_sites(ctx, res, sites):
     res.distribution['except_clause_recasts'] = sum(1 for m in metas if m['raw'] != m['final'])
     if metas:
         res.samples.append({'except_site': metas[len(metas) // 3]})
-    n, failing, errors = core.eval_agreement('c02_site', HEADER + AGREE_DEFS, 'site_case', terms, shard=max(200, len(terms) // 4 + 1),
-                                             case_type='nat * cstr * (list string * cstr) * (list string * cstr)')
-    res.programs += n
-    res.corr_errors += errors
-    for i in failing[:10]:
-        res.disagreements.append(dict(metas[i], kind='except-clause'))
+    coq_eval(res, 'c02_site', 'site_case', terms, metas, 'nat * cstr * (list string * cstr) * (list string * cstr)', 'except-clause', 2)
 
 
 def small_objects(max_len):
@@ -896,7 +1009,10 @@ def run_ensure(ctx, res):
     from mitxgraders.baseclasses import AbstractGrader, ItemGrader
     from mitxgraders.listgrader import ListGrader
     from mitxgraders.exceptions import ConfigError
-    objs = small_objects(3 if ctx['tier'] == 'quick' and not ctx['escalate'] else 4 if ctx['tier'] == 'quick' else 5)
+    quick = ctx['tier'] == 'quick'
+    objs = small_objects(4 if quick else 5)        # oracle: lists up to this length
+    corr_len = 3 if quick else 4                    # correspondence: lists up to this length
+    pool_reset()
     terms, metas = [], []
     for spec in objs:
         for al in (True, False):
@@ -914,7 +1030,7 @@ def run_ensure(ctx, res):
                 if what:
                     res.witnesses.append({'key': 'ensure:%r:%r:%r' % (spec, al, asg), 'kind': 'ensure', 'input': spec,
                                           'allow_lists': al, 'allow_single': asg, 'what': what})
-                if st == 'ret' and val != x:
+                if (st == 'ret' and val != x) or (isinstance(spec, list) and spec[0] == 'list' and len(spec[1]) > corr_len):
                     continue
                 terms.append('(%s, %s, %s, %s)' % (boollit(al), boollit(asg), pyval_term(x), fin_term(st, val)))
                 metas.append({'input': spec, 'allow_lists': al, 'allow_single': asg})
@@ -931,12 +1047,7 @@ def run_ensure(ctx, res):
                 res.disagreements.append({'kind': 'ensure-wrapper', 'class': cls.__name__, 'input': spec})
     res.distribution['ensure_text_inputs_cases'] = len(terms)
     res.samples.append({'ensure_text_inputs': metas[len(metas) // 2]})
-    n, failing, errors = core.eval_agreement('c02_ensure', HEADER + AGREE_DEFS, 'ensure_case', terms, shard=max(300, len(terms) // 4 + 1),
-                                             case_type='bool * bool * pyval * fin')
-    res.programs += n
-    res.corr_errors += errors
-    for i in failing[:10]:
-        res.disagreements.append(dict(metas[i], kind='ensure'))
+    coq_eval(res, 'c02_ensure', 'ensure_case', terms, metas, 'bool * bool * pyval * fin', 'ensure', 4)
 
 
 def balanced_py(s):
@@ -953,19 +1064,23 @@ def run_brackets(ctx, res, rng):
     from mitxgraders.helpers.calc.expressions import BracketValidator, MathParser
     from mitxgraders.helpers.calc.exceptions import UnbalancedBrackets, UnableToParse
     import itertools
-    L = 4 if ctx['tier'] == 'quick' else 5
+    quick = ctx['tier'] == 'quick'
+    L = 5 if quick else 6                       # oracle: exhaustive up to this length
+    CL = (4 if ctx['escalate'] else 3) if quick else 5     # correspondence: exhaustive up to this length
     strings = []
     for n in range(L + 1):
-        strings += [''.join(p) for p in itertools.product('()[]{}a', repeat=n)]
-    n_rand = 600 if ctx['tier'] == 'quick' else 6000
+        strings += [(''.join(p), n <= CL) for p in itertools.product('()[]{}a', repeat=n)]
+    n_rand = 500 if quick else 6000
     for _ in range(n_rand):
         k = rng.randint(5, 40)
         if rng.random() < 0.5:
-            strings.append(''.join(rng.choice('()[]{}a1+ ,' + u'（【') for _ in range(k)))
+            strings.append((''.join(rng.choice('()[]{}a1+ ,' + u'\uff08\u3010') for _ in range(k)), True))
         else:
-            strings.append(mutate(rng, gen_formula(rng, 3)))
+            strings.append((mutate(rng, gen_formula(rng, 3)), True))
+    pool_reset()
     terms, metas = [], []
-    for s in strings:
+    n_unbalanced = 0
+    for s, corr in strings:
         st, val = core.guarded(BracketValidator.validate, s)
         res.oracle_evals += 1
         bal = balanced_py(s)
@@ -976,24 +1091,25 @@ def run_brackets(ctx, res, rng):
             what = 'unbalanced text not rejected with UnbalancedBrackets: %r %r' % (st, val)
         if what:
             res.witnesses.append({'key': 'brackets:%r' % s, 'kind': 'brackets', 'text': s, 'what': what})
-        if st == 'exc' and type(val) is not UnbalancedBrackets:
+        if not bal:
+            n_unbalanced += 1
+        if (st == 'exc' and type(val) is not UnbalancedBrackets) or not (corr or what):
             continue
         terms.append('(%s, %s)' % (ctext(s), 'None' if st == 'ret' else '(Some %s)' % ctext(str(val))))
         metas.append({'text': s})
         if not bal:
             res.nontrivial.add(('brackets', s))
-    res.distribution['bracket_strings'] = len(terms)
-    res.distribution['bracket_strings_exhaustive_up_to_length'] = L
-    n, failing, errors = core.eval_agreement('c02_bv', HEADER + AGREE_DEFS, 'bv_case', terms, shard=max(300, len(terms) // 8 + 1),
-                                             case_type='cstr * option cstr')
-    res.programs += n
-    res.corr_errors += errors
-    for i in failing[:10]:
-        res.disagreements.append(dict(metas[i], kind='brackets'))
+    res.distribution['bracket_strings_oracle'] = len(strings)
+    res.distribution['bracket_strings_unbalanced'] = n_unbalanced
+    res.distribution['bracket_strings_oracle_exhaustive_up_to_length'] = L
+    res.distribution['bracket_strings_correspondence'] = len(terms)
+    res.distribution['bracket_strings_correspondence_exhaustive_up_to_length'] = CL
+    coq_eval(res, 'c02_bv', 'bv_case', terms, metas, 'cstr * option cstr', 'brackets', 6)
     # MathParser.parse with the engine's outcome as oracle
     P = MathParser()
-    texts = [s for s in CORPUS] + [gen_text(rng) for _ in range(500 if ctx['tier'] == 'quick' else 5000)]
+    texts = [s for s in CORPUS] + [gen_text(rng) for _ in range(250 if quick else 5000)]
     texts += ['(' * 2500 + '1' + ')' * 2500, '1 + ( 2', ' ( 1 ) + ', '1 +', ' 1 + 2 ', '( [ ) ]']
+    pool_reset()
     terms, metas = [], []
     kinds = {}
     for s in texts:
@@ -1013,20 +1129,17 @@ def run_brackets(ctx, res, rng):
             what = 'text the grammar rejects: parse gave %r %s' % (st, str(val)[:120])
         if what:
             res.witnesses.append({'key': 'parse:%r' % s[:200], 'kind': 'parse', 'text': s, 'what': what})
-        if len(s) > 400:
+        if len(s) > 400 or st == 'timeout' or gst == 'timeout':
             continue
         g = 'None' if gst == 'ret' else '(Some %s)' % exc_pair(gval)
         terms.append('(%s, %s, %s)' % (ctext(s), g, fin_term(st, val)))
         metas.append({'text': s})
         k = 'ok' if st == 'ret' else type(val).__name__
         kinds[k] = kinds.get(k, 0) + 1
+        if st == 'exc':
+            res.nontrivial.add(('parse', s))
     res.distribution['parse_outcomes'] = kinds
-    n, failing, errors = core.eval_agreement('c02_parse', HEADER + AGREE_DEFS, 'parse_case', terms, shard=max(300, len(terms) // 4 + 1),
-                                             case_type='cstr * option (list string * cstr) * fin')
-    res.programs += n
-    res.corr_errors += errors
-    for i in failing[:10]:
-        res.disagreements.append(dict(metas[i], kind='parse'))
+    coq_eval(res, 'c02_parse', 'parse_case', terms, metas, 'cstr * option (list string * cstr) * fin', 'parse', 4)
 
 
 # ------------------------------------------------------------------------------------------------
@@ -1092,9 +1205,10 @@ def gen_tree(rng, depth, funcs):
 
 def run_trees(ctx, res, rng):
     from mitxgraders import FormulaGrader
+    pool_reset()
     funcs = scripted_functions()
     g = FormulaGrader(answers='0', user_functions={k: v[0] for k, v in funcs.items()}, samples=1)
-    n_cases = 700 if ctx['tier'] == 'quick' else 8000
+    n_cases = 600 if ctx['tier'] == 'quick' else 8000
     terms, metas = [], []
     seen = set()
     for i in range(n_cases):
@@ -1119,12 +1233,7 @@ def run_trees(ctx, res, rng):
         hist[m['outcome']] = hist.get(m['outcome'], 0) + 1
     res.distribution['scripted_tree_outcomes'] = hist
     res.samples.append({'scripted_tree': metas[len(metas) // 2] if metas else None})
-    n, failing, errors = core.eval_agreement('c02_tree', HEADER + AGREE_DEFS, 'tree_case', terms, shard=max(200, len(terms) // 4 + 1),
-                                             case_type='cstr * node v * fin')
-    res.programs += n
-    res.corr_errors += errors
-    for i in failing[:10]:
-        res.disagreements.append(dict(metas[i], kind='tree'))
+    coq_eval(res, 'c02_tree', 'tree_case', terms, metas, 'cstr * node v * fin', 'tree', 4)
 
 
 # ------------------------------------------------------------------------------------------------
@@ -1163,6 +1272,7 @@ def run_numpy(ctx, res, rng):
             'overflow and divide by zero', 'invalid value and overflow', 'something else entirely']
     for _ in range(60):
         msgs.append(mutate(rng, rng.choice(msgs[:10])))
+    pool_reset()
     terms, metas = [], []
     for m in msgs:
         st, val = core.guarded(ex.handle_np_floating_errors, m, 0)
@@ -1172,11 +1282,7 @@ def run_numpy(ctx, res, rng):
             continue
         terms.append('(%s, %s, %s)' % (ctext(m), cnames(mro_names(val)), ctext(str(val))))
         metas.append({'message': m})
-    n, failing, errors = core.eval_agreement('c02_np', HEADER + AGREE_DEFS, 'np_case', terms, shard=500, case_type='cstr * list string * cstr')
-    res.programs += n
-    res.corr_errors += errors
-    for i in failing[:10]:
-        res.disagreements.append(dict(metas[i], kind='numpy-handler'))
+    coq_eval(res, 'c02_np', 'np_case', terms, metas, 'cstr * list string * cstr', 'numpy-handler', 1)
 
 
 # ------------------------------------------------------------------------------------------------
@@ -1197,12 +1303,22 @@ def run(ctx):
                                   'kind': 'anticipated', 'row': ANTICIPATED.index(row), 'grader': row[0],
                                   'input': spec if len(repr(spec)) < 2000 else '(long)', 'what': what})
     res.distribution['anticipated_rows'] = len(ANTICIPATED)
+    phases = {}
+    t0 = time.time()
     sites = run_calls(ctx, res, rng)
+    phases['calls'] = round(time.time() - t0, 1)
+    t0 = time.time()
     run_sites(ctx, res, sites)
     run_ensure(ctx, res)
+    phases['sites+ensure'] = round(time.time() - t0, 1)
+    t0 = time.time()
     run_brackets(ctx, res, rng)
+    phases['brackets+parse'] = round(time.time() - t0, 1)
+    t0 = time.time()
     run_trees(ctx, res, rng)
     run_numpy(ctx, res, rng)
+    phases['trees+numpy'] = round(time.time() - t0, 1)
+    res.distribution['phase_seconds'] = phases
     what = numpy_state_problem()
     if what:
         res.witnesses.append({'key': 'numpy-state-after', 'kind': 'numpy', 'what': 'after the run: ' + what})
